@@ -1375,12 +1375,13 @@ pub fn c18_units(thorough: bool) -> Vec<Unit> {
         }
     }
     // a third node (same advertised address, different name) connects while / after a and b have their link
+    // (three real nodes are expensive: one deviation in both tiers, the thorough tier adds the dial patterns)
     for (label, dials) in [("c-dials-a", &[(2usize, 0usize)][..]), ("a-dials-c", &[(0, 2)][..]), ("c-dials-a-and-b", &[(2, 0), (2, 1)][..]), ("c-and-a-dial-each-other", &[(2, 0), (0, 2)][..]), ("c-dials-b+b-dials-c+c-dials-a", &[(2, 1), (1, 2), (2, 0)][..])] {
         for simultaneous in [true, false] {
             if !thorough && !simultaneous && label != "c-dials-a" {
                 continue;
             }
-            v.push(Unit::explore_split(Job::new(format!("three-nodes/{label}/{}", if simultaneous { "ab-dialled-each-other" } else { "a-dialled-b" }), cfg.clone(), Some(if thorough { 2 } else { 1 }), c18_three_nodes_body(dials, simultaneous)), 8));
+            v.push(Unit::explore_split(Job::new(format!("three-nodes/{label}/{}", if simultaneous { "ab-dialled-each-other" } else { "a-dialled-b" }), cfg.clone(), Some(1), c18_three_nodes_body(dials, simultaneous)), 8));
         }
     }
     for simultaneous in [true, false] {
